@@ -835,10 +835,13 @@ func (w *world) exec(o *jOp) []effect {
 			must(w.inner.Update(w.ctx, nc))
 			must(client.IgnoreNotFound(w.inner.Delete(w.ctx, nc)))
 			node := &corev1.Node{}
-			must(w.inner.Get(w.ctx, client.ObjectKey{Name: nodeName(o.Node)}, node))
-			node.Finalizers = nil
-			must(w.inner.Update(w.ctx, node))
-			must(client.IgnoreNotFound(w.inner.Delete(w.ctx, node)))
+			if err := w.inner.Get(w.ctx, client.ObjectKey{Name: nodeName(o.Node)}, node); err == nil { // the Node object may be gone already
+				node.Finalizers = nil
+				must(w.inner.Update(w.ctx, node))
+				must(client.IgnoreNotFound(w.inner.Delete(w.ctx, node)))
+			} else if !apierrors.IsNotFound(err) {
+				panic(err)
+			}
 			w.cluster.DeleteNodeClaim(nodeName(o.Node))
 			w.cluster.DeleteNode(nodeName(o.Node))
 			w.gone[o.Node] = true
